@@ -36,9 +36,22 @@ static unsigned occurring(const SA& a)
   return m;
 }
 
+// MAPMODE: the optional out-map of both operations: 0 none (nullptr), 1 an empty map, 2 a map that already holds identity
+// entries for a symbolic subset of the states (a map left over from an earlier trimming call, of this or another
+// automaton); the statement must hold whatever map is passed
+#ifndef MAPMODE
+#define MAPMODE 0
+#endif
 extern "C" void harness(void)
 {
+#ifdef RMASK
+  SA A; A.draw(RMASK);      // sub-universe: only the rules of the mask are candidates
+#else
   SA A; A.draw();
+#endif
+#if MAPMODE == 2
+  bool pre[NS]; for (unsigned s = 0; s < NS; ++s) pre[s] = vs_bit();
+#endif
 #ifdef KF_EXCLUDE_UNREACH_SHORTCUT
   // known finding C03-1 (see known_findings.json): excluded so that any *other* violation is still reported
   vs_assume(!SHAPE_UNREACH_SHORTCUT(A));
@@ -47,7 +60,15 @@ extern "C" void harness(void)
   const unsigned prod = U::productive(A), fin = U::finalMask(A), reach = U::reachableTD(A), useful = U::usefulStates(A);
 
 #if OP == 0   // ---- RemoveUselessStates + IsLangEmpty
+#if MAPMODE
+  AutBase::StateToStateMap trMap;
+#if MAPMODE == 2
+  for (unsigned s = 0; s < NS; ++s) if (pre[s]) trMap.insert(std::make_pair(s, s));
+#endif
+  ExplicitTreeAut res = aut.RemoveUselessStates(&trMap);
+#else
   ExplicitTreeAut res = aut.RemoveUselessStates();
+#endif
   SA R; CHECK(decode(res, R), 1);
   // every remaining rule takes part in an accepting run: parent useful, children productive
   for (unsigned i = 0; i < R.nrules; ++i) { U::Rule r = U::Univ<NS>::rule(i); bool good = A.pres[i] && ((useful >> r.parent) & 1);
@@ -68,7 +89,15 @@ extern "C" void harness(void)
   CHECK((U::included<NS, NS>(A, R)), 4); CHECK((U::included<NS, NS>(R, A)), 5);
   CHECK(aut.IsLangEmpty() == U::langEmpty(A), 6);
 #else         // ---- RemoveUnreachableStates
+#if MAPMODE
+  AutBase::StateToStateMap trMap;
+#if MAPMODE == 2
+  for (unsigned s = 0; s < NS; ++s) if (pre[s]) trMap.insert(std::make_pair(s, s));
+#endif
+  ExplicitTreeAut res = aut.RemoveUnreachableStates(&trMap);
+#else
   ExplicitTreeAut res = aut.RemoveUnreachableStates();
+#endif
   SA R; CHECK(decode(res, R), 11);
   for (unsigned i = 0; i < R.nrules; ++i) { U::Rule r = U::Univ<NS>::rule(i);
     // every state that still occurs is reachable top-down from a final state (parent reachable => children reachable)
@@ -77,6 +106,16 @@ extern "C" void harness(void)
   // the statement itself, read on the RESULT: every state that occurs in R is reachable top-down from a final state of R
   CHECK((occurring(R) & ~U::reachableTD(R)) == 0, 16);
   CHECK((U::included<NS, NS>(A, R)), 14); CHECK((U::included<NS, NS>(R, A)), 15);
+#endif
+#if MAPMODE && defined(STRICT_IMPL)
+  // (not part of the statement, never defined in a registered query) the out-map of the current implementation: identity entries only, one for every state that still occurs in the result; the caller's entries are kept
+  { unsigned keys = 0; bool ident = true;
+    for (const auto& kv : trMap) { ident = ident && kv.first == kv.second && kv.first < NS; if (kv.first < NS) keys |= 1u << kv.first; }
+    CHECK(ident, 30); CHECK((occurring(R) & ~keys) == 0, 31);
+#if MAPMODE == 2
+    for (unsigned s = 0; s < NS; ++s) CHECK(!pre[s] || ((keys >> s) & 1), 32);
+#endif
+  }
 #endif
   // operand unchanged
   SA A2; CHECK(decode(aut, A2), 20);
